@@ -144,7 +144,7 @@ const BASE: Family = Family {
     p_owned: 50,
 };
 
-pub const FAMILY_NAMES: &[&str] = &["mix", "nolimit", "evict", "expiry", "stream", "pool"];
+pub const FAMILY_NAMES: &[&str] = &["mix", "nolimit", "evict", "expiry", "stream", "pool", "nocancel"];
 
 /// Named parameter sets. To add a family: add a name above and an arm here.
 pub fn family(name: &str) -> Option<Family> {
@@ -210,6 +210,9 @@ pub fn family(name: &str) -> Option<Family> {
             gop_w: [8, 3, 1, 1, 1, 1, 0],
             ..BASE
         },
+        // like mix but without client cancellations, `expire max` and expiry: avoids the known
+        // defects of the unfixed code, so that whole runs can be compared with the model
+        "nocancel" => Family { name: "nocancel", w_cancel: 0, w_expire: 0, p_expire_max: 0, ..BASE },
         // P: LockPool (b, a, t; no values)
         "pool" => Family {
             name: "pool",
@@ -235,8 +238,12 @@ pub fn family(name: &str) -> Option<Family> {
 /// Result of one run (random or DFS).
 pub struct RunOut {
     pub id: String,
+    /// The trace text (emptied once it has been written to a part file).
     pub trace: String,
+    /// The labels of the run; kept only for runs with a monitor hit (for the replay file).
     pub labels: Vec<Label>,
+    /// Label-kind histogram of the run.
+    pub kinds: BTreeMap<&'static str, u32>,
     pub header: String,
     pub steps: usize,
     pub violation: Option<Violation>,
@@ -302,10 +309,17 @@ impl Recorder {
             } else if let Some((aid, _, _, _)) = en.in_callback.first() {
                 // `ok` could re-invoke the callback forever if nothing was evicted
                 Action::CbRet(*aid, CbRes::Err, false)
-            } else if let Some((aid, _, _)) = en.stream_idle.first() {
-                Action::Cancel(*aid)
+            } else if let Some((aid, _, _)) = en
+                .stream_idle
+                .iter()
+                .find(|(_, lp, woken)| matches!(lp, LastPoll::Fresh | LastPoll::Item) || *woken)
+            {
+                // let streams run to their end where possible
+                Action::StreamStep(*aid)
             } else if let Some((g, _)) = en.guards.first() {
                 Action::Start(Call::Drop(*g))
+            } else if let Some((aid, _, _)) = en.stream_idle.first() {
+                Action::Cancel(*aid)
             } else if let Some(aid) = en.cancellable.first() {
                 Action::Cancel(*aid)
             } else if en.can_consume {
@@ -330,7 +344,13 @@ impl Recorder {
             Some(v) => self.text.push_str(&format!("end violation {} {}\n", v.id, v.text)),
         }
         self.ex.teardown();
-        RunOut { id, trace: self.text, steps: self.labels.len(), labels: self.labels, header, violation, widths }
+        let mut kinds: BTreeMap<&'static str, u32> = BTreeMap::new();
+        for l in &self.labels {
+            *kinds.entry(l.kind()).or_default() += 1;
+        }
+        let steps = self.labels.len();
+        let labels = if violation.is_some() { self.labels } else { Vec::new() };
+        RunOut { id, trace: self.text, steps, labels, kinds, header, violation, widths }
     }
 }
 
@@ -905,8 +925,8 @@ impl Summary {
     fn add(&mut self, r: &RunOut, opts: &ExploreOpts) {
         self.runs += 1;
         self.steps += r.steps as u64;
-        for l in &r.labels {
-            *self.kinds.entry(l.kind()).or_default() += 1;
+        for (k, n) in &r.kinds {
+            *self.kinds.entry(k).or_default() += *n as u64;
         }
         if let Some(v) = &r.violation {
             let n = self.hits.entry(v.id).or_default();
@@ -1014,6 +1034,7 @@ where
 
 #[derive(Default, Clone, Copy)]
 pub struct ChunkInfo {
+    pub index: usize,
     pub exhausted: bool,
     pub truncated: bool,
 }
@@ -1056,6 +1077,10 @@ pub fn explore(opts: ExploreOpts) -> Result<String, String> {
         let progs = Arc::new(progs);
         let p2 = progs.clone();
         let fam = opts.family.clone();
+        // A program can have many thousands of schedules: its traces go to a part file
+        // (`<out>.part<i>`) which the writer appends to the output in program order.
+        let out_path = opts.out.clone();
+        let out_path2 = opts.out.clone();
         ordered_parallel(
             progs.len(),
             opts.threads,
@@ -1066,10 +1091,23 @@ pub fn explore(opts: ExploreOpts) -> Result<String, String> {
                 let mut path: Vec<usize> = Vec::new();
                 let mut info = ChunkInfo::default();
                 let mut n = 0u64;
+                let mut part = std::fs::File::create(format!("{}.part{}", out_path, i))
+                    .ok()
+                    .map(|f| std::io::BufWriter::with_capacity(1 << 16, f));
                 loop {
                     let id = format!("{}-{}-{}-p{}s{}", fam, backend.name(), seed, i, n);
-                    let r = dfs_run(prog, backend, ow, &id, &path);
+                    let mut r = dfs_run(prog, backend, ow, &id, &path);
                     let np = next_path(&path, &r.widths);
+                    if n == 0 {
+                        if let Some(p) = part.as_mut() {
+                            let _ = p.write_all(format!("# program {}\n", r.header).as_bytes());
+                        }
+                    }
+                    if let Some(p) = part.as_mut() {
+                        if p.write_all(r.trace.as_bytes()).is_ok() {
+                            r.trace = String::new();
+                        }
+                    }
                     runs.push(r);
                     n += 1;
                     match np {
@@ -1086,11 +1124,15 @@ pub fn explore(opts: ExploreOpts) -> Result<String, String> {
                         }
                     }
                 }
+                drop(part); // flush
+                info.index = i;
                 (runs, info)
             },
             |runs, info| {
-                if let Some(first) = runs.first() {
-                    let _ = out.write_all(format!("# program {}\n", first.header).as_bytes());
+                let part = format!("{}.part{}", out_path2, info.index);
+                if let Ok(mut f) = std::fs::File::open(&part) {
+                    let _ = std::io::copy(&mut f, &mut out);
+                    let _ = std::fs::remove_file(&part);
                 }
                 if info.exhausted {
                     sum.exhausted_programs += 1;
